@@ -9,7 +9,8 @@ from lib.core import existing_modules
 LEAN_MODULES = ["Sonic.Props.C04"]
 REQUIRED_THEOREMS = ["Sonic.Props.C04." + n for n in ["C04_tables", "C04_scan_grammar", "C04_int_kinds", "C04_accumulate", "C04_zero", "C04_fast_exact",
                                                          "C04_fast_path_correct", "Rne_monotone", "C04_retry_sound", "Rne_spec", "C04_el_correct",
-                                                         "C04_el_path_correct"]]
+                                                         "C04_el_path_correct", "C04_normalfast_correct", "C04_normalfast_path_correct", "C04_decimal_correct",
+                                                         "C04_decimal_shift_exact", "C04_native_path_correct", "C04_native_guard_needed"]]
 CONFIGS = [("avx2", "prod"), ("sse", "prod"), ("avx2", "san")]
 CONFIGS_THOROUGH = CONFIGS + [("dyn", "prod"), ("sse", "san")]
 RULE = ("number texts: for every decimal exponent -348..347 (every row of the power-of-ten table) mantissas 1, 2^53-1, 2^53+1, 10^16-1, "
@@ -19,20 +20,22 @@ RULE = ("number texts: for every decimal exponent -348..347 (every row of the po
         "digits with/without '.' and 'e'; exponents up to +-99999; malformed number spellings; primitives AtofEiselLemire64, "
         "ParseFloatingNormalFast, AtofNative, simd_str2int on raw operands.  distinct = distinct command line; non-trivial = well-formed "
         "number with a fraction, an exponent or more than 15 digits")
-EXPLANATION = ("Proved in Lean: the power-of-ten tables against exact integer bounds, the scanner grammar, integer kinds, digit accumulation "
-               "bounds, zero handling, the exact fast path and retry soundness, and the anchor of the rounding spec (see theorem list in the "
-               "evidence), and the Eisel-Lemire core for every mantissa and exponent (C04_el_correct: whenever AtofEiselLemire64 answers, the bits are "
-               "the exact round-to-nearest-even of m*10^e; C04_el_path_correct for the el/el2 paths of parseNumber). The normal-fast and "
-               "big-decimal cores are not yet proved for all inputs: they are validated per input - "
-               "each result of the run is compared with Spec.Rne (exact round-to-nearest-even with big naturals, itself proved against "
-               "the definition) and with the literal Lean models of the five paths (same value, same error code/offset).")
+EXPLANATION = ("Proved in Lean for ALL inputs: the power-of-ten tables against exact integer bounds, the scanner grammar, integer kinds, digit "
+               "accumulation bounds, zero handling, and every conversion path against the exact reference Spec.Rne.round: the exact fast path "
+               "(C04_fast_path_correct), yyjson's normal-fast path (C04_normalfast_correct), Eisel-Lemire with the man/man+1 retry "
+               "(C04_el_correct, C04_el_path_correct) and the 800-digit big-decimal fallback for texts of any length (C04_decimal_correct, "
+               "C04_native_path_correct). The run compares each result with Spec.Rne (exact round-to-nearest-even on big naturals, itself "
+               "proved against the definition) and with the literal Lean models of the five paths (same value, same error code/offset).")
 ASSUMPTIONS = ["hardware (double)uint64, * and / are correctly rounded (modelled as Rne of the exact result)",
-               "written exponents of 6 or more digits on texts longer than 100000 characters: known finding F6"]
+               "written exponents of absolute value >= 100000 (guard of the theorems): known finding F6 lives there",
+               "a fraction-without-exponent token directly followed by '.' (invalid JSON, rejected right afterwards): AtofNative sees the rest "
+               "of the buffer and the value handed to the handler is not the token's (C04_native_guard_needed)"]
 TRUSTED = ["Spec.Rne.round (exact big-natural rounding) as oracle; compiled Lean evaluation"]
-LEVEL_TEXT = ("Partial proof + validated per input: table rows, scanner grammar, integer kinds, accumulation, zero and fast-path theorems hold "
-              "and the Eisel-Lemire core for all inputs; the normal-fast and big-decimal cores are checked against an exact reference on every input of the run.")
+LEVEL_TEXT = ("Machine-checked proof (Lean 4) of every path of the number parser model against the exact reference rounding, for all inputs "
+              "inside the stated guards. Level stays 'other' because the full statement is false on the unchanged tree outside the exponent "
+              "guard (known finding F6, reported as KNOWN-FINDING); every input of the run is also checked against the exact reference.")
 LEVEL_NOTE = "Trusted: Lean kernel; standard axioms; table translator; IEEE hardware arithmetic; compiled Lean evaluation of the spec."
-TECHNIQUE = "Lean 4 theorems (tables, grammar, kinds, fast path, Eisel-Lemire) + exact big-number reference oracle + differential correspondence"
+TECHNIQUE = "Lean 4 proof of all conversion paths (fast, normal-fast, Eisel-Lemire, big-decimal) + exact big-number reference oracle + differential correspondence"
 
 
 def hx(b):
